@@ -215,7 +215,7 @@ impl Property for C14 {
         "C14"
     }
     fn rule(&self) -> String {
-        "templates: programs of the generator (all features, chain-specific directives in 70% of them) lowered by the real front end, with type-correct but hostile arguments (integers from the i128 boundary set, byte strings of length 0/1/27..33/56/57/64 where 28 or 32 are expected, addresses of every Shelley kind, Byron-like, pointer, wrong-length and empty ones, UTxO references with short ids and index u32::MAX), stores that are empty, huge, hold negative amounts, odd class names and datums of any shape, protocol parameters with 0 / u64::MAX coefficients and missing cost models, fresh and used compiler instances; wallets: one input query (by address and / or token) against wallets with 0..120 full matches and 0..60 partial ones (both sides of the selection window of 50 and of the 10 references an error message lists); fee-loop: a payment template with change = source - quantity - fees, swept in steps of the fee coefficient across the amounts where the change crosses a CBOR width boundary (where the loop fee -> transaction -> fee has a late fixed point or none), with round budgets 0, 1, 2, 3, 10, 100; trees: random well-formed IR trees (every Expression / Param / op variant, depth <= 6) a client could send, with arguments for their parameters. Every public back-end entry point is driven (find_params, find_queries, is_constant, apply_args, apply_fees, Node::apply(compiler), reduce, apply_inputs, compile, inputs::resolve, resolve_tx). Oracle: each call returns; a panic (hook: message, file, first in-repo function), an abort (worker signal) or a reproducible watchdog overrun is a violation. Non-trivial: every case; distinct = distinct (IR, arguments).".into()
+        "templates: programs of the generator (all features, chain-specific directives in 70% of them) lowered by the real front end, with type-correct but hostile arguments (integers from the i128 boundary set, byte strings of length 0/1/27..33/56/57/64 where 28 or 32 are expected, addresses of every Shelley kind, Byron-like, pointer, wrong-length and empty ones, UTxO references with short ids and index u32::MAX), stores that are empty, huge, hold negative amounts, odd class names and datums of any shape, protocol parameters with 0 / u64::MAX coefficients and missing cost models, fresh and used compiler instances; wallets: one input query (by address and / or token) against wallets with 0..120 full matches and 0..60 partial ones (both sides of the selection window of 50 and of the 10 references an error message lists); fee-loop: a payment template with change = source - quantity - fees, swept in steps of the fee coefficient across the amounts where the change crosses a CBOR width boundary (where the loop fee -> transaction -> fee has a late fixed point or none), with round budgets 0, 1, 2, 3, 10, 100; deep-chains: chains of 4..64 operations (add, sub, negate, coercion, property) over a pending parameter / fee / input datum, through reduce (twice), apply_args, apply_fees and reduce - each stage must return within the case budget; trees: random well-formed IR trees (every Expression / Param / op variant, depth <= 6) a client could send, with arguments for their parameters. Every public back-end entry point is driven (find_params, find_queries, is_constant, apply_args, apply_fees, Node::apply(compiler), reduce, apply_inputs, compile, inputs::resolve, resolve_tx). Oracle: each call returns; a panic (hook: message, file, first in-repo function), an abort (worker signal) or a reproducible watchdog overrun is a violation. Non-trivial: every case; distinct = distinct (IR, arguments).".into()
     }
     fn assumptions(&self) -> Vec<String> {
         vec![
@@ -228,24 +228,84 @@ impl Property for C14 {
     }
     fn phases(&self, tier: Tier) -> Vec<Phase> {
         match tier {
-            Tier::Quick => vec![Phase::new("templates", 6_000, Profile::Checked), Phase::new("trees", 12_000, Profile::Checked), Phase::new("wallets", 1_500, Profile::Checked), Phase::new("fee-loop", 1_500, Profile::Checked).budget(30_000)],
+            Tier::Quick => vec![Phase::new("templates", 6_000, Profile::Checked), Phase::new("trees", 12_000, Profile::Checked), Phase::new("wallets", 1_500, Profile::Checked), Phase::new("fee-loop", 1_500, Profile::Checked).budget(30_000), Phase::new("deep-chains", 108, Profile::Checked).budget(15_000)],
             Tier::Thorough => vec![
                 Phase::new("templates", 200_000, Profile::Checked),
                 Phase::new("trees", 400_000, Profile::Checked),
                 Phase::new("wallets", 60_000, Profile::Checked),
                 Phase::new("fee-loop", 60_000, Profile::Checked).budget(30_000),
+                Phase::new("deep-chains", 540, Profile::Checked).budget(15_000),
                 Phase::new("templates-release", 100_000, Profile::Release),
                 Phase::new("trees-release", 200_000, Profile::Release),
             ],
         }
     }
     fn required_features(&self, _tier: Tier) -> Vec<String> {
-        ["stage/apply_args", "stage/reduce", "stage/compile", "stage/inputs::resolve", "stage/resolve_tx", "compile/ok", "compile/err", "resolve_tx/ok", "resolve_tx/err", "pparams/missing-cost-model", "stage/fee-loop:resolve_tx", "fee-loop/ok"].iter().map(|s| s.to_string()).collect()
+        ["stage/apply_args", "stage/reduce", "stage/compile", "stage/inputs::resolve", "stage/resolve_tx", "compile/ok", "compile/err", "resolve_tx/ok", "resolve_tx/err", "pparams/missing-cost-model", "stage/fee-loop:resolve_tx", "fee-loop/ok", "deep-chains/depth-64", "deep-chains/returned"].iter().map(|s| s.to_string()).collect()
     }
     fn run_case(&self, ctx: &mut Ctx, phase: &str, idx: u64, rng: &mut Rng) {
         let pp = pparams(rng);
         if pp.cost_models.len() < 3 {
             ctx.count("pparams/missing-cost-model");
+        }
+        if phase == "deep-chains" {
+            // long chains of operations over a value that is still pending (a parameter, an input): every stage
+            // has to return in time that does not explode with the length of the chain
+            use tir::BuiltInOp as B;
+            use tir::Expression as E;
+            let depth = [4usize, 8, 12, 16, 20, 24, 32, 48, 64][(idx % 9) as usize];
+            let shape = (idx / 9) % 6;
+            let pending: E = match rng.below(3) {
+                0 => E::EvalParam(Box::new(tir::Param::ExpectValue("x".into(), tx3_tir::model::core::Type::Int))),
+                1 => E::EvalParam(Box::new(tir::Param::ExpectFees)),
+                _ => E::EvalCoerce(Box::new(tir::Coerce::IntoDatum(E::EvalParam(Box::new(tir::Param::ExpectInput(
+                    "source".into(),
+                    tir::InputQuery { address: E::None, min_amount: E::None, r#ref: E::None, many: false, collateral: false },
+                )))))),
+            };
+            let mut e = pending;
+            for k in 0..depth {
+                let lit = E::Number(1 + (k % 3) as i128);
+                e = match shape {
+                    0 => E::EvalBuiltIn(Box::new(B::Add(e, lit))),
+                    1 => E::EvalBuiltIn(Box::new(B::Sub(e, lit))),
+                    2 => E::EvalBuiltIn(Box::new(B::Add(lit, e))),
+                    3 => E::EvalBuiltIn(Box::new(B::Negate(e))),
+                    4 => E::EvalCoerce(Box::new(tir::Coerce::IntoAssets(e))),
+                    _ => E::EvalBuiltIn(Box::new(B::Property(E::List(vec![e, lit]), E::Number(0)))),
+                };
+            }
+            let tx = tir::Tx {
+                fees: E::EvalParam(Box::new(tir::Param::ExpectFees)),
+                references: vec![],
+                inputs: vec![],
+                outputs: vec![tir::Output { address: E::Address(vec![0x60; 29]), datum: e, amount: E::None, optional: false }],
+                validity: None,
+                mints: vec![],
+                burns: vec![],
+                adhoc: vec![],
+                collateral: vec![],
+                signers: None,
+                metadata: vec![],
+            };
+            ctx.count(&format!("deep-chains/depth-{depth}"));
+            ctx.eval();
+            let detail = |what: serde_json::Value| json!({"phase": phase, "depth": depth, "shape": shape, "observed": what});
+            let args: BTreeMap<String, ArgValue> = BTreeMap::from([("x".to_string(), ArgValue::Int(5))]);
+            let r = crate::panics::catch(|| -> Result<(), String> {
+                let t = reduce(AnyTir::V1Beta0(tx.clone())).map_err(|e| e.to_string())?;
+                let t = reduce(t).map_err(|e| e.to_string())?;
+                let t = apply_args(t, &args).map_err(|e| e.to_string())?;
+                let t = apply_fees(t, 200_000).map_err(|e| e.to_string())?;
+                let _ = find_params(&t);
+                reduce(t).map(|_| ()).map_err(|e| e.to_string())
+            });
+            match r {
+                Ok(_) => ctx.count("deep-chains/returned"),
+                Err(p) => ctx.violation(format!("panic:deep-chains:{}", p.signature()), detail(json!({"panic": p.message}))),
+            }
+            ctx.nontrivial(fnv64(format!("deep{depth}-{shape}-{idx}").as_bytes()));
+            return;
         }
         if phase == "fee-loop" {
             // the loop fee -> transaction -> fee of resolve_tx on instances where it has no fixed point or a late
